@@ -564,6 +564,9 @@ func multi() {
 		Attribute("name", String, func() { Pattern("^[a-z]+$") })
 		Attribute("count", Count)
 		Attribute("props", MapOf(String, String))
+		// collections whose example is drawn under a length validation (no user example)
+		Attribute("scores", MapOf(String, Int), func() { MinLength(2); MaxLength(3) })
+		Attribute("labels", ArrayOf(String), func() { MinLength(2); MaxLength(3) })
 		Attribute("inner", func() {
 			Attribute("x", Int, func() { Default(3) })
 			Attribute("y", ArrayOf(ID))
